@@ -142,6 +142,12 @@ CODEC = ["C01", "C02", "C06", "C08", "C09", "C10", "C16", "C17", "C20"]
 
 # (id, properties that must stay at exit 0, edits)  -- behaviour-preserving refactors
 SILENT: List[Tuple[str, List[str], List[Any]]] = [
+    ("enum-prefix-two-step", ["C03", "C19", "C05"], [(NM, "    if name.startswith(prefix) and name[len(prefix) :].strip(\"_\"):\n        name = name[len(prefix) :].strip(\"_\")", "    if name.startswith(prefix):\n        rest = name[len(prefix) :].strip(\"_\")\n        if rest:\n            name = rest")]),
+    ("builtins-table-via-comprehension-var", ["C03", "C18"], [(MD, "        self.builtins_types = {\n            pythonize_field_name(f.name) for f in getattr(self.proto_obj, \"field\", [])\n        } & set(dir(builtins))\n", "        field_names = {\n            pythonize_field_name(f.name) for f in getattr(self.proto_obj, \"field\", [])\n        }\n        self.builtins_types = field_names.intersection(dir(builtins))\n")]),
+    ("rename-local-from-dict", ["C04", "C05", "C19"], [("rename_local", I, "Message._from_dict_init", "sub_cls", "value_cls"), ("rename_local", I, "Message._from_dict_init", "init_kwargs", "kwargs")]),
+    ("map-json-branch-reordered", ["C04", "C05"], [(I, "                    if isinstance(v, datetime):\n                        output_map[k] = _Timestamp.timestamp_to_json(v)\n                    elif isinstance(v, timedelta):\n                        output_map[k] = _Duration.delta_to_json(v)\n", "                    if isinstance(v, timedelta):\n                        output_map[k] = _Duration.delta_to_json(v)\n                    elif isinstance(v, datetime):\n                        output_map[k] = _Timestamp.timestamp_to_json(v)\n")]),
+    ("wire-type-match-positional-to-keyword", CODEC, [(I, "            if not _wire_type_matches(parsed.wire_type, meta.proto_type, repeated):", "            if not _wire_type_matches(parsed.wire_type, meta.proto_type, repeated=repeated):")]),
+    ("duration-parse-sign-by-comparison", ["C04", "C05", "C15"], [(I, "        sign = -1 if text.startswith(\"-\") else 1\n", "        sign = -1 if text[:1] == \"-\" else 1\n")]),
     ("key-lookup-if-form", ["C04", "C05", "C19"], [(I, "            field_name = cls._betterproto.field_name_by_key.get(\n                key\n            ) or safe_snake_case(key)\n", "            field_name = cls._betterproto.field_name_by_key.get(key)\n            if not field_name:\n                field_name = safe_snake_case(key)\n")]),
     ("map-key-true-membership", ["C04", "C05"], [(I, "        return key == \"true\" if isinstance(key, str) else key\n", "        return key in (\"true\",) if isinstance(key, str) else key\n")]),
     ("len-map-entry-without-serialising", CODEC, [(I, '                    sk = _serialize_single(1, meta.map_types[0], k)\n                    sv = _serialize_single(2, meta.map_types[1], v)\n                    size += _len_single(\n                        meta.number, meta.proto_type, sk + sv, serialize_empty=True\n                    )\n', '                    entry_size = _len_single(1, meta.map_types[0], k)\n                    entry_size += _len_single(2, meta.map_types[1], v)\n                    size += (\n                        size_varint((meta.number << 3) | 2)\n                        + size_varint(entry_size)\n                        + entry_size\n                    )\n')]),
